@@ -284,9 +284,12 @@ def leg_a(ctx, defects):
     import sparse
     from sparse.numba_backend._compressed.convert import uncompress_dimension
     from sparse.numba_backend._coo.core import _calc_counts_invidx
+    from sparse.numba_backend._slicing import normalize_index
 
     rng = gen.rng_for(ctx.seed, PID + "A")
     numba_types = ["int8", "uint8"] if ctx.quick else IDX
+    # GCXS kernels with uint64 index arrays fail wholesale (finding F-uint64, leg C); their sites are compared for uint64 only once that is fixed
+    gcxs_types = [t for t in numba_types if t != "uint64" or not defects.get("F-uint64", True)]
     all_types = IDX
     reqs, metas = [], []  # metas: (site, case, impl outcome, post(out) -> comparable)
 
@@ -322,7 +325,10 @@ def leg_a(ctx, defects):
                       slice(None, None, 200), slice(None, None, -200), slice(n - 2, None), slice(None, -3, -1), slice(3, 3), slice(-1, None, 7)]
             slices += [gen.rand_slice(rng, n) for _ in range(8 if ctx.quick else 40)]
             for s in slices:
-                start, stop, step = s.indices(n)
+                if s.step is not None and abs(s.step) >= 2 ** 63:
+                    continue  # a step beyond intp is an OverflowError for every coordinates' dtype (normalisation stores it in an intp array)
+                ns = normalize_index((s,), (n,))[0]  # the library's own normalisation (C02 relates it to Python's)
+                start, stop, step = ns.start, ns.stop, ns.step
                 sel = [c for c in pts if c in range(start, stop, step)]
                 if (start, stop, step) == (0, n, 1):
                     continue
@@ -499,7 +505,7 @@ def leg_a(ctx, defects):
                         ["c15_gcxsty", mt(req) if req else None, mt(t), rows, cols, len(lin), [int(v) for v in true_indptr]], got,
                         lambda o: {"ok": {"ty": en(o["ok"]["ty"]), "vals": o["ok"]["vals"]}} if "ok" in o else o)
         # ---- W11 GCXS joiners + uncompress_dimension --------------------------------------------------
-        for t in numba_types:
+        for t in gcxs_types:
             M = lim(t)
             for r1, r2, k1, k2 in [(M // 2 + 1, M // 2 + 1, 2, 2), (M - 1, 1, 2, 1), (M, 1, 1, 1), (3, 4, 2, 3), (10, 10, min(M // 2 + 1, 30), min(M // 2 + 1, 30)),
                                    (16, 17, min(M // 2 + 1, 40), min(M // 2 + 2, 45))]:
@@ -564,7 +570,7 @@ def leg_a(ctx, defects):
                     got = _err(e)
                 add("W13:boxshape", {"dtype": t, "shape": list(shape)}, ["c15_boxshape", mt(t), fx["F-numba-shape"], list(shape)], got)
         # ---- W14 GCXS reduce row numbers ------------------------------------------------------------------
-        for t in numba_types:
+        for t in gcxs_types:
             M = lim(t)
             for n in sorted({M // 2 + 1, M // 2, 5, (M + 3) // 3 + 1}):
                 pts = sorted({(0, 0, 0), (1, n - 1, 2), (0, n - 1, 1), (1, 0, 2), (1, n // 2, 0), (0, n // 2, 2)})
@@ -584,7 +590,7 @@ def leg_a(ctx, defects):
                         ["c15_reducerows", ty(tp), fx["F-gcxs-reduce-rows"], rows], got,
                         lambda o, nonempty=nonempty: {"ok": [v for v, keep in zip(o["ok"], nonempty.tolist()) if keep]} if "ok" in o else o)
         # ---- W15 GCXS getitem keys --------------------------------------------------------------------------
-        for t in numba_types:
+        for t in gcxs_types:
             x = _coo([[0, 1, 2, 2], [1, 0, 2, 3]], [1, 2, 3, 4], (3, 4), t)
             g = sparse.GCXS.from_coo(x, compressed_axes=(0,))
             for key, keys in ((slice(1, None), [1, 2]), ((slice(None), slice(1, 3)), [0, 1, 2])):
@@ -638,6 +644,19 @@ def run(ctx):
         w.cleanup()
     import findings_c15
 
+    # fingerprints of the hand-modelled functions (normalised AST): a change is not a verdict, it is recorded as source drift
+    b = "sparse/numba_backend/"
+    ctx.notes["model_fingerprints"] = {
+        **core.source_fingerprint(b + "_coo/indexing.py", ["getitem"]),
+        **core.source_fingerprint(b + "_coo/core.py", ["_calc_counts_invidx", "COO.reshape", "COO.__init__"]),
+        **core.source_fingerprint(b + "_coo/common.py", ["concatenate", "roll", "flip", "kron", "triu", "tril"]),
+        **core.source_fingerprint(b + "_common.py", ["pad"]),
+        **core.source_fingerprint(b + "_compressed/compressed.py", ["_from_coo", "GCXS._reduce_calc"]),
+        **{"gcxs." + k: v for k, v in core.source_fingerprint(b + "_compressed/common.py", ["concatenate", "stack"]).items()},
+        **core.source_fingerprint(b + "_compressed/convert.py", ["uncompress_dimension", "_transpose", "_1d_reshape", "compute_flat"]),
+        **{"gcxs." + k: v for k, v in core.source_fingerprint(b + "_compressed/indexing.py", ["getitem"]).items()},
+        **core.source_fingerprint(b + "_utils.py", ["can_store", "get_out_dtype", "random"]),
+    }
     ctx.notes["partial"] = findings_c15.PARTIAL
     ctx.notes["stated_not_proved"] = findings_c15.STATEMENTS
     # a finding whose witness no longer fails must not be used to excuse anything
@@ -662,17 +681,15 @@ def replay(ctx, path):
     if f["leg"] != "C":
         print("leg", f["leg"], "case:", json.dumps(case)[:400], "\nrecorded:", f["detail"])
         return 1
-    rng = np.random.default_rng([ctx.seed, 15])
-    t = case["idx_dtype"]
-    for sname, shape, coords, data in c15_legc.scenarios(case["limit"], rng, True):
-        if sname != case["scenario"]:
-            continue
-        o_ref = c15_legc.Operands(shape, coords, data, np.int64, case["limit"])
-        o_t = c15_legc.Operands(shape, coords, data, np.dtype(t), case["limit"])
-        for (fam, name, f_ref), (_, _, f_got) in zip(c15_legc.op_table(o_ref), c15_legc.op_table(o_t)):
-            if name == case["op"]:
-                status, detail = c15_legc.judge(c15_legc.outcome(f_ref), c15_legc.outcome(f_got), t)
-                print(f"replay {fam}:{name} on {sname} with {t} coordinates: {status} {detail}")
-                return 0 if status != "differ" else 1
-    print("case not found")
-    return 2
+    import io
+
+    buf = io.StringIO()
+    c15_legc.run_worker(case["idx_dtype"], "thorough", ctx.seed, [case["limit"]], False, None, out=buf, only_case=(case["scenario"], case["op"]))
+    recs = [json.loads(l) for l in buf.getvalue().splitlines() if l.strip()]
+    recs = [r for r in recs if "begin" not in r]
+    if not recs:
+        print("case not found:", json.dumps(case))
+        return 2
+    r = recs[0]
+    print(f"replay {r['family']}:{case['op']} on {case['scenario']} with {case['idx_dtype']} coordinates: {r['status']} {r['detail']}")
+    return 0 if r["status"] != "differ" else 1
